@@ -45,7 +45,13 @@ SET_FIELDS = ("sample_set", "addition_set", "custom_set")
 # ---------------------------------------------------------------------------
 @st.composite
 def _time_pool(draw, n):
-    kind = draw(st.sampled_from(["grid", "int", "frac", "mixed"]))
+    kind = draw(st.sampled_from(["grid", "int", "frac", "mixed", "late-cluster"]))
+    if kind == "late-cluster":
+        # minutes into the chart, times 1 ms or a fraction of a ms apart: "at the same time" means the same time,
+        # however large the numbers are (a relative float tolerance would merge these)
+        base = float(draw(st.sampled_from([100000, 240000, 600000, 3599000])))
+        steps = draw(st.lists(st.sampled_from([0.0, 0.5, 1.0, 2.0, 3.0, 5.0, -1.0]), min_size=2, max_size=max(2, n), unique=True))
+        return [base + d for d in steps]
     out = []
     for _ in range(n):
         k = kind if kind != "mixed" else draw(st.sampled_from(["grid", "int", "frac"]))
@@ -316,6 +322,8 @@ def check(case, ctx):
     tgt_t = _by_time(tgt_notes)
     src_t = _by_time(src_notes)
     nt = False
+    allt = sorted(set(tgt_t) | set(src_t))
+    ctx.label("times>=100s-within-3ms-of-each-other", any(a >= 1e5 and 0 < b - a <= 3.0 for a, b in zip(allt, allt[1:])))
     for t, s in summ.items():
         n_t = len(tgt_t.get(t, []))
         audible = s["needed"] > 0
